@@ -152,3 +152,18 @@ impl VotingProposals {
     #[verifier::external_body] pub fn from_vec(v: Vec<VotingProposal>) -> (r: VotingProposals)
         ensures (forall|i: int, j: int| 0 <= i < j < v@.len() ==> v@[i] != v@[j]) ==> r.items() == v@ { unimplemented!() }
 }
+
+// ---- VotingBuilder::build: the voters written into the body are exactly the builder's voters (the vote redeemer ranks are ranks among them)
+impl VotesOfVoter {
+    pub uninterp spec fn pairs(&self) -> Seq<(GovernanceActionId, VotingProcedure)>;
+    /// `&voter_votes.votes` (iteration of the BTreeMap of one voter's votes; R-btree)
+    #[verifier::external_body] pub fn pairs_(&self) -> (r: Vec<(GovernanceActionId, VotingProcedure)>) ensures r@ == self.pairs() { unimplemented!() }
+}
+/// BTreeMap<Voter, BTreeMap<..>> being filled (R-btree): the sequence of inserted voters (keys are distinct here: they come from a map)
+#[verifier::external_body] pub struct VoterMap { _p: core::marker::PhantomData<u8> }
+impl VoterMap {
+    pub uninterp spec fn voters(&self) -> Seq<Voter>;
+    #[verifier::external_body] pub fn new_() -> (r: VoterMap) ensures r.voters() == Seq::<Voter>::empty() { unimplemented!() }
+    #[verifier::external_body] pub fn insert(&mut self, k: Voter, v: VotesOfVoter) -> (r: Option<VotesOfVoter>) ensures final(self).voters() == old(self).voters().push(k) { unimplemented!() }
+}
+pub struct VotingProcedures(pub VoterMap);
